@@ -328,19 +328,22 @@ theorem Z_of {c : Ctx} {s : Nat} (hs : c.r.state = s)
   unfold Z; rw [hs]; exact ⟨h1, h2⟩
 
 /-- plain states: neither a byte-reading state nor one of the exceptional ones -/
-def plain (s : Nat) : Prop := s ≠ sReadZlibCmf ∧ s ≠ sReadZlibFlg ∧ s ≠ sRawMemcpy2 ∧ s ≠ sRawMemcpy1
+def plain (s : Nat) : Prop := s ≠ sReadZlibCmf ∧ s ≠ sReadZlibFlg ∧ s ≠ sRawMemcpy2 ∧ s ≠ sRawMemcpy1 ∧ s ≠ sStart
 instance (s : Nat) : Decidable (plain s) := by unfold plain; exact inferInstance
 
 theorem Z_plain {c : Ctx} {s : Nat} (hs : c.r.state = s) (hp : plain s) : Z c := by
   unfold Z; rw [hs]
-  refine ⟨fun h => ?_, fun h => absurd h hp.2.2.2⟩
+  refine ⟨fun h => ?_, fun h => absurd h hp.2.2.2.1⟩
   rcases h with h | h | h
   · exact absurd h hp.1
   · exact absurd h hp.2.1
   · exact absurd h hp.2.2.1
 
-theorem I_plain {c : Ctx} (s : Nat) (hs : c.r.state = s) (hp : plain s) (hB : BC c) (hQ : Q c) : I c :=
-  ⟨hB, Z_plain hs hp, Or.inl hQ⟩
+/-- the discipline, in a context that has left the `Start` state (no transition leads back to it) -/
+def I' (c : Ctx) : Prop := I c ∧ c.r.state ≠ sStart
+
+theorem I_plain {c : Ctx} (s : Nat) (hs : c.r.state = s) (hp : plain s) (hB : BC c) (hQ : Q c) : I' c :=
+  ⟨⟨hB, Z_plain hs hp, Or.inl hQ⟩, by rw [hs]; exact hp.2.2.2.2⟩
 
 /-- in a state that is not exceptional the invariant is `Q` -/
 def ordinary (s : Nat) : Prop :=
@@ -366,9 +369,9 @@ theorem I.q {c : Ctx} (h : I c) {s : Nat} (hs : c.r.state = s) (ho : ordinary s)
 
 /-- what a transition must leave behind -/
 def StepI (e : Env) : Step → Prop
-  | .cont c' _ => I c'
-  | .fin st c' _ => BC c' ∧ Z c' ∧
-      ((st = e.eoi ∧ (Q c' ∨ Hungry c' ∨ Doomed c')) ∨ (st ≠ e.eoi ∧ (Q c' ∨ Doomed c')))
+  | .cont c' _ => I' c'
+  | .fin st c' _ => (BC c' ∧ Z c' ∧
+      ((st = e.eoi ∧ (Q c' ∨ Hungry c')) ∨ (st ≠ e.eoi ∧ (Q c' ∨ st = stFailed)))) ∧ c'.r.state ≠ sStart
 
 theorem Q.read {c : Ctx} (h : Q c) (amount : Nat) : c.r.numBits < amount + 8 := by unfold Q at h; omega
 
@@ -383,7 +386,7 @@ variable {e : Env} {c : Ctx} {out : Array UInt8}
 /-- shape shared by the states that start with `readBits` (all of them plain states) -/
 theorem readBits_stepI {s : Nat} (hs : c.r.state = s) (hp : plain s) (hle : c.inPos ≤ e.inp.size) (hB : BC c)
     (amount : Nat) (hq : c.r.numBits < amount + 8) (k : Ctx → Nat → Step)
-    (hnone : ∀ c1, ReadOK e.inp c c1 → c1.r.numBits < amount → (Q c1 ∨ Hungry c1 ∨ Doomed c1))
+    (hnone : ∀ c1, ReadOK e.inp c c1 → c1.r.numBits < amount → (Q c1 ∨ Hungry c1))
     (hk : ∀ c1 v, ReadOK e.inp c c1 → BC c1 → Q c1 → v < 2 ^ amount → StepI e (k c1 v)) :
     StepI e (match readBits e.inp amount c with
       | (c1, none) => .fin e.eoi c1 out
@@ -393,7 +396,8 @@ theorem readBits_stepI {s : Nat} (hs : c.r.state = s) (hp : plain s) (hle : c.in
   generalize readBits e.inp amount c = p at *
   obtain ⟨c1, o⟩ := p
   cases o with
-  | none => exact ⟨BC.of_read h1 hB h2, Z_plain (h1.state.trans hs) hp, Or.inl ⟨rfl, hnone c1 h1 (h3 rfl)⟩⟩
+  | none => exact ⟨⟨BC.of_read h1 hB h2, Z_plain (h1.state.trans hs) hp, Or.inl ⟨rfl, hnone c1 h1 (h3 rfl)⟩⟩,
+      by rw [h1.state.trans hs]; exact hp.2.2.2.2⟩
   | some v => exact hk c1 v h1 (BC.of_read h1 hB h2) (h4 v rfl) (hv v rfl)
 
 theorem decodeHuff_stepI {s : Nat} (hs : c.r.state = s) (hp : plain s) (hle : c.inPos ≤ e.inp.size) (hB : BC c)
@@ -410,14 +414,15 @@ theorem decodeHuff_stepI {s : Nat} (hs : c.r.state = s) (hp : plain s) (hle : c.
   obtain ⟨c1, o⟩ := p
   cases o with
   | none =>
-    refine ⟨BC.of_read h1 hB h2, Z_plain (h1.state.trans hs) hp, Or.inl ⟨rfl, ?_⟩⟩
+    refine ⟨⟨BC.of_read h1 hB h2, Z_plain (h1.state.trans hs) hp, Or.inl ⟨rfl, ?_⟩⟩,
+      by rw [h1.state.trans hs]; exact hp.2.2.2.2⟩
     rcases h3 rfl with h | h
     · exact Or.inl h
-    · exact Or.inr (Or.inl (hnone c1 h1 h))
+    · exact Or.inr (hnone c1 h1 h)
   | some v => exact hk c1 v h1 (BC.of_read h1 hB h2) (h4 v rfl)
 
 
-theorem initTree_I {c : Ctx} (hB : BC c) (hQ : Q c) (l d : Array Nat) : I (initTree c l d) := by
+theorem initTree_I {c : Ctx} (hB : BC c) (hQ : Q c) (l d : Array Nat) : I' (initTree c l d) := by
   unfold initTree
   (repeat' split)
   · exact I_plain sReadLitlenDistTablesCodeSize rfl (by decide)
@@ -429,24 +434,26 @@ theorem initTree_I {c : Ctx} (hB : BC c) (hQ : Q c) (l d : Array Nat) : I (initT
 
 theorem stStart_I (hC : CS c.r) : StepI e (stStart e c out) := by
   unfold stStart
-  refine ⟨⟨by show (0 : Nat) < 2 ^ 0; decide, hC⟩, ⟨fun _ => rfl, fun _ => Or.inl rfl⟩, Or.inl ?_⟩
-  show (0 : Nat) < 8
-  omega
+  refine ⟨⟨⟨by show (0 : Nat) < 2 ^ 0; decide, hC⟩, ⟨fun _ => rfl, fun _ => Or.inl rfl⟩, Or.inl ?_⟩, ?_⟩
+  · show (0 : Nat) < 8
+    omega
+  · show (if hasFlag e.flags fParseZlib then sReadZlibCmf else sReadBlockHeader) ≠ sStart
+    split <;> decide
 
 theorem stReadZlibCmf_I (hs : c.r.state = sReadZlibCmf) (hI : I c) : StepI e (stReadZlibCmf e c out) := by
   have hz : c.r.numBits = 0 := hI.2.1.1 (Or.inl hs)
   have hQ : Q c := by unfold Q; omega
   unfold stReadZlibCmf
   cases e.inp[c.inPos]? with
-  | none => exact ⟨hI.1, hI.2.1, Or.inl ⟨rfl, Or.inl hQ⟩⟩
-  | some b => exact ⟨hI.1, Z_of (s := sReadZlibFlg) rfl (fun _ => hz) (fun h => absurd h (by decide)), Or.inl hQ⟩
+  | none => exact ⟨⟨hI.1, hI.2.1, Or.inl ⟨rfl, Or.inl hQ⟩⟩, by rw [hs]; decide⟩
+  | some b => exact ⟨⟨hI.1, Z_of (s := sReadZlibFlg) rfl (fun _ => hz) (fun h => absurd h (by decide)), Or.inl hQ⟩, by show sReadZlibFlg ≠ sStart; decide⟩
 
 theorem stReadZlibFlg_I (hs : c.r.state = sReadZlibFlg) (hI : I c) : StepI e (stReadZlibFlg e c out) := by
   have hz : c.r.numBits = 0 := hI.2.1.1 (Or.inr (Or.inl hs))
   have hQ : Q c := by unfold Q; omega
   unfold stReadZlibFlg
   cases e.inp[c.inPos]? with
-  | none => exact ⟨hI.1, hI.2.1, Or.inl ⟨rfl, Or.inl hQ⟩⟩
+  | none => exact ⟨⟨hI.1, hI.2.1, Or.inl ⟨rfl, Or.inl hQ⟩⟩, by rw [hs]; decide⟩
   | some b =>
     dsimp only
     split
@@ -484,15 +491,15 @@ theorem stRawHeader_I (hle : c.inPos ≤ e.inp.size) (hs : c.r.state = sRawHeade
         (fun c1 _ h => Or.inl h) fun c1 v h1 hB hQ1 _ => ?_
       exact I_plain sRawHeader (h1.state.trans hs) (by decide) hB hQ1
     · cases e.inp[c.inPos]? with
-      | none => exact ⟨hI.1, hI.2.1, Or.inl ⟨rfl, Or.inl hQ⟩⟩
+      | none => exact ⟨⟨hI.1, hI.2.1, Or.inl ⟨rfl, Or.inl hQ⟩⟩, by rw [hs]; decide⟩
       | some b => exact I_plain sRawHeader hs (by decide) hI.1 hQ
   · (repeat' split)
     · exact I_plain sBadRawLength rfl (by decide) hI.1 hQ
     · exact I_plain sBlockDone rfl (by decide) hI.1 hQ
     · exact I_plain sRawReadFirstByte rfl (by decide) hI.1 hQ
     · rename_i h0
-      exact ⟨hI.1, Z_of (s := sRawMemcpy1) rfl (fun h => absurd h (by decide))
-        (fun _ => Or.inr (by show c.r.numBits = 0; omega)), Or.inl hQ⟩
+      exact ⟨⟨hI.1, Z_of (s := sRawMemcpy1) rfl (fun h => absurd h (by decide))
+        (fun _ => Or.inr (by show c.r.numBits = 0; omega)), Or.inl hQ⟩, by show sRawMemcpy1 ≠ sStart; decide⟩
 
 theorem stRawReadFirstByte_I (hle : c.inPos ≤ e.inp.size) (hs : c.r.state = sRawReadFirstByte) (hI : I c) :
     StepI e (stRawReadFirstByte e c out) := by
@@ -506,11 +513,11 @@ theorem stRawStoreFirstByte_I (hs : c.r.state = sRawStoreFirstByte) (hI : I c) :
   have hQ := hI.q hs (by decide)
   unfold stRawStoreFirstByte
   split
-  · exact ⟨hI.1, hI.2.1, Or.inr ⟨hmo_ne_eoi e, Or.inl hQ⟩⟩
+  · exact ⟨⟨hI.1, hI.2.1, Or.inr ⟨hmo_ne_eoi e, Or.inl hQ⟩⟩, by rw [hs]; decide⟩
   · dsimp only
     split
     · rename_i h0
-      exact ⟨hI.1, Z_of (s := sRawMemcpy1) rfl (fun h => absurd h (by decide)) (fun _ => h0), Or.inl hQ⟩
+      exact ⟨⟨hI.1, Z_of (s := sRawMemcpy1) rfl (fun h => absurd h (by decide)) (fun _ => h0), Or.inl hQ⟩, by show sRawMemcpy1 ≠ sStart; decide⟩
     · exact I_plain sRawReadFirstByte rfl (by decide) hI.1 hQ
 
 theorem stRawMemcpy1_I (hs : c.r.state = sRawMemcpy1) (hI : I c) : StepI e (stRawMemcpy1 e c out) := by
@@ -520,17 +527,17 @@ theorem stRawMemcpy1_I (hs : c.r.state = sRawMemcpy1) (hI : I c) : StepI e (stRa
   · exact I_plain sBlockDone rfl (by decide) hI.1 hQ
   · rename_i hc
     split
-    · exact ⟨hI.1, hI.2.1, Or.inr ⟨hmo_ne_eoi e, Or.inl hQ⟩⟩
+    · exact ⟨⟨hI.1, hI.2.1, Or.inr ⟨hmo_ne_eoi e, Or.inl hQ⟩⟩, by rw [hs]; decide⟩
     · have hz : c.r.numBits = 0 := (hI.2.1.2 hs).resolve_left hc
-      exact ⟨hI.1, Z_of (s := sRawMemcpy2) rfl (fun _ => hz) (fun h => absurd h (by decide)), Or.inl hQ⟩
+      exact ⟨⟨hI.1, Z_of (s := sRawMemcpy2) rfl (fun _ => hz) (fun h => absurd h (by decide)), Or.inl hQ⟩, by show sRawMemcpy2 ≠ sStart; decide⟩
 
 theorem stRawMemcpy2_I (hs : c.r.state = sRawMemcpy2) (hI : I c) : StepI e (stRawMemcpy2 e c out) := by
   have hz : c.r.numBits = 0 := hI.2.1.1 (Or.inr (Or.inr hs))
   have hQ : Q c := by unfold Q; omega
   unfold stRawMemcpy2
   split
-  · exact ⟨hI.1, Z_of (s := sRawMemcpy1) rfl (fun h => absurd h (by decide)) (fun _ => Or.inr hz), Or.inl hQ⟩
-  · exact ⟨hI.1, hI.2.1, Or.inl ⟨rfl, Or.inl hQ⟩⟩
+  · exact ⟨⟨hI.1, Z_of (s := sRawMemcpy1) rfl (fun h => absurd h (by decide)) (fun _ => Or.inr hz), Or.inl hQ⟩, by show sRawMemcpy1 ≠ sStart; decide⟩
+  · exact ⟨⟨hI.1, hI.2.1, Or.inl ⟨rfl, Or.inl hQ⟩⟩, by rw [hs]; decide⟩
 
 theorem getD_setIfInBounds_le {a : Array Nat} {j v b : Nat} (ha : ∀ i, a.getD i 0 ≤ b) (hv : v ≤ b) (i : Nat) :
     (a.setIfInBounds j v).getD i 0 ≤ b := by
@@ -634,7 +641,8 @@ theorem stReadLitlenDistTablesCodeSize_I (hle : c.inPos ≤ e.inp.size)
                 by_cases h7 : 7 ≤ m
                 · exact absurd hm (this h7)
                 · omega
-            refine ⟨hB, Z_plain (s := sReadExtraBitsCodeSize) rfl (by decide), Or.inr (Or.inr (Or.inr ⟨rfl, ?_, ?_⟩))⟩
+            refine ⟨⟨hB, Z_plain (s := sReadExtraBitsCodeSize) rfl (by decide), Or.inr (Or.inr (Or.inr ⟨rfl, ?_, ?_⟩))⟩,
+              by show sReadExtraBitsCodeSize ≠ sStart; decide⟩
             · subst hv; rfl
             · show c1.r.numBits < 15
               omega
@@ -667,7 +675,7 @@ theorem stReadExtraBitsCodeSize_I (hle : c.inPos ≤ e.inp.size) (hs : c.r.state
   unfold stReadExtraBitsCodeSize
   refine readBits_stepI hs (by decide) hle hI.1 _ hq _ ?_ fun c1 v h1 hB hQ1 _ => ?_
   · intro c1 h1 hlt
-    refine Or.inr (Or.inl (Or.inl ⟨Or.inl (h1.state.trans hs), ?_⟩))
+    refine Or.inr (Or.inl ⟨Or.inl (h1.state.trans hs), ?_⟩)
     rw [h1.regs]; exact hlt
   · exact I_plain sReadLitlenDistTablesCodeSize rfl (by decide) hB hQ1
 
@@ -694,7 +702,7 @@ theorem stReadExtraBitsLitlen_I (hle : c.inPos ≤ e.inp.size) (hs : c.r.state =
   unfold stReadExtraBitsLitlen
   refine readBits_stepI hs (by decide) hle hI.1 _ (hI.bits hs (Or.inl rfl)) _ ?_ fun c1 v h1 hB hQ1 _ => ?_
   · intro c1 h1 hlt
-    refine Or.inr (Or.inl (Or.inl ⟨Or.inr (Or.inl (h1.state.trans hs)), ?_⟩))
+    refine Or.inr (Or.inl ⟨Or.inr (Or.inl (h1.state.trans hs)), ?_⟩)
     rw [h1.regs]; exact hlt
   · exact I_plain sDecodeDistance rfl (by decide) hB hQ1
 
@@ -703,7 +711,7 @@ theorem stReadExtraBitsDistance_I (hle : c.inPos ≤ e.inp.size) (hs : c.r.state
   unfold stReadExtraBitsDistance
   refine readBits_stepI hs (by decide) hle hI.1 _ (hI.bits hs (Or.inr rfl)) _ ?_ fun c1 v h1 hB hQ1 _ => ?_
   · intro c1 h1 hlt
-    refine Or.inr (Or.inl (Or.inl ⟨Or.inr (Or.inr (h1.state.trans hs)), ?_⟩))
+    refine Or.inr (Or.inl ⟨Or.inr (Or.inr (h1.state.trans hs)), ?_⟩)
     rw [h1.regs]; exact hlt
   · exact I_plain sHuffDecodeOuterLoop2 rfl (by decide) hB hQ1
 
@@ -785,7 +793,7 @@ theorem stDecodeLitlen_I (hle : c.inPos ≤ e.inp.size) (hs : c.r.state = sDecod
   · intro c1 v h1 hB hv
     rcases hv with hQ1 | ⟨hv, _⟩
     · exact I_plain sWriteSymbol rfl (by decide) hB hQ1
-    · exact ⟨hB, Z_plain (s := sWriteSymbol) rfl (by decide), Or.inr (Or.inr (Or.inl (Or.inl ⟨Or.inl rfl, hv⟩)))⟩
+    · exact ⟨⟨hB, Z_plain (s := sWriteSymbol) rfl (by decide), Or.inr (Or.inr (Or.inl (Or.inl ⟨Or.inl rfl, hv⟩)))⟩, by show sWriteSymbol ≠ sStart; decide⟩
 
 theorem stWriteSymbol_I (hs : c.r.state = sWriteSymbol) (hI : I c) : StepI e (stWriteSymbol e c out) := by
   have h := hI.sym hs (Or.inl rfl)
@@ -793,11 +801,11 @@ theorem stWriteSymbol_I (hs : c.r.state = sWriteSymbol) (hI : I c) : StepI e (st
   split
   · rcases h with hQ | h286
     · exact I_plain sHuffDecodeOuterLoop1 rfl (by decide) hI.1 hQ
-    · exact ⟨hI.1, Z_plain (s := sHuffDecodeOuterLoop1) rfl (by decide), Or.inr (Or.inr (Or.inl (Or.inl ⟨Or.inr rfl, h286⟩)))⟩
+    · exact ⟨⟨hI.1, Z_plain (s := sHuffDecodeOuterLoop1) rfl (by decide), Or.inr (Or.inr (Or.inl (Or.inl ⟨Or.inr rfl, h286⟩)))⟩, by show sHuffDecodeOuterLoop1 ≠ sStart; decide⟩
   · have hQ : Q c := h.elim id fun h => by omega
     split
     · exact I_plain sDecodeLitlen rfl (by decide) hI.1 hQ
-    · exact ⟨hI.1, hI.2.1, Or.inr ⟨hmo_ne_eoi e, Or.inl hQ⟩⟩
+    · exact ⟨⟨hI.1, hI.2.1, Or.inr ⟨hmo_ne_eoi e, Or.inl hQ⟩⟩, by rw [hs]; decide⟩
 
 theorem stHuffDecodeOuterLoop1_I (hs : c.r.state = sHuffDecodeOuterLoop1) (hI : I c) :
     StepI e (stHuffDecodeOuterLoop1 e c out) := by
@@ -808,7 +816,7 @@ theorem stHuffDecodeOuterLoop1_I (hs : c.r.state = sHuffDecodeOuterLoop1) (hI : 
   · have hQ : Q c := h.elim id fun h => by omega
     exact I_plain sBlockDone rfl (by decide) hI.1 hQ
   · split
-    · exact ⟨hI.1, Z_plain (s := sInvalidLitlen) rfl (by decide), Or.inr (Or.inr (Or.inl (Or.inr (by show sDoneForever < sInvalidLitlen; decide))))⟩
+    · exact ⟨⟨hI.1, Z_plain (s := sInvalidLitlen) rfl (by decide), Or.inr (Or.inr (Or.inl (Or.inr (by show sDoneForever < sInvalidLitlen; decide))))⟩, by show sInvalidLitlen ≠ sStart; decide⟩
     · have hQ : Q c := h.elim id fun h => by omega
       split
       · exact I_plain sReadExtraBitsLitlen rfl (by decide) hI.1 hQ
@@ -824,7 +832,7 @@ theorem stDecodeDistance_I (hle : c.inPos ≤ e.inp.size) (hs : c.r.state = sDec
   · intro c1 v h1 hB hv
     dsimp only
     split
-    · exact ⟨hB, Z_plain (s := sInvalidDist) rfl (by decide), Or.inr (Or.inr (Or.inl (Or.inr (by show sDoneForever < sInvalidDist; decide))))⟩
+    · exact ⟨⟨hB, Z_plain (s := sInvalidDist) rfl (by decide), Or.inr (Or.inr (Or.inl (Or.inr (by show sDoneForever < sInvalidDist; decide))))⟩, by show sInvalidDist ≠ sStart; decide⟩
     · have hQ1 : Q c1 := hv.elim id fun h => by omega
       split
       · exact I_plain sReadExtraBitsDistance rfl (by decide) hB hQ1
@@ -842,7 +850,7 @@ theorem stMatch_I (hs : c.r.state = sHuffDecodeOuterLoop2 ∨ c.r.state = sWrite
     | exact I_plain sDistanceOutOfBounds rfl (by decide) hI.1 hQ
     | exact I_plain sDecodeLitlen rfl (by decide) hI.1 hQ
     | exact I_plain sWriteLenBytesToEnd rfl (by decide) hI.1 hQ
-    | exact ⟨hI.1, Z_plain (s := sWriteLenBytesToEnd) rfl (by decide), Or.inr ⟨hmo_ne_eoi e, Or.inl hQ⟩⟩
+    | exact ⟨⟨hI.1, Z_plain (s := sWriteLenBytesToEnd) rfl (by decide), Or.inr ⟨hmo_ne_eoi e, Or.inl hQ⟩⟩, by show sWriteLenBytesToEnd ≠ sStart; decide⟩
 
 theorem stBlockDone_I (hs : c.r.state = sBlockDone) (hI : I c) : StepI e (stBlockDone e c out) := by
   have hQ := hI.q hs (by decide)
@@ -856,7 +864,7 @@ theorem stBlockDone_I (hs : c.r.state = sBlockDone) (hI : I c) : StepI e (stBloc
     · exact I_plain sReadAdler32 rfl (by decide) ⟨hB' _ _, hI.1.2⟩ hQ'
     · exact I_plain sDoneForever rfl (by decide) ⟨hB' _ _, hI.1.2⟩ hQ'
   · split
-    · exact ⟨hI.1, hI.2.1, Or.inr ⟨bb_ne_eoi e, Or.inl hQ⟩⟩
+    · exact ⟨⟨hI.1, hI.2.1, Or.inr ⟨bb_ne_eoi e, Or.inl hQ⟩⟩, by rw [hs]; decide⟩
     · exact I_plain sReadBlockHeader rfl (by decide) hI.1 hQ
 
 theorem stReadAdler32_I (hle : c.inPos ≤ e.inp.size) (hs : c.r.state = sReadAdler32) (hI : I c) :
@@ -870,7 +878,7 @@ theorem stReadAdler32_I (hle : c.inPos ≤ e.inp.size) (hs : c.r.state = sReadAd
         (fun c1 _ h => Or.inl h) fun c1 v h1 hB hQ1 _ => ?_
       exact I_plain sReadAdler32 (h1.state.trans hs) (by decide) hB hQ1
     · cases e.inp[c.inPos]? with
-      | none => exact ⟨hI.1, hI.2.1, Or.inl ⟨rfl, Or.inl hQ⟩⟩
+      | none => exact ⟨⟨hI.1, hI.2.1, Or.inl ⟨rfl, Or.inl hQ⟩⟩, by rw [hs]; decide⟩
       | some b => exact I_plain sReadAdler32 hs (by decide) hI.1 hQ
   · exact I_plain sDoneForever rfl (by decide) hI.1 hQ
 
@@ -927,7 +935,7 @@ theorem step_I (g : Geo e c out) (hI : I c) : StepI e (step e c out) := by
   · rw [step_Match2 hM2]; exact stMatch_I (Or.inr hM2) hI
   by_cases hD : c.r.state = sDoneForever
   · rw [step_DoneForever hD]
-    exact ⟨hI.1, hI.2.1, Or.inr ⟨done_ne_eoi e, Or.inl (hI.q hD (by decide))⟩⟩
+    exact ⟨⟨hI.1, hI.2.1, Or.inr ⟨done_ne_eoi e, Or.inl (hI.q hD (by decide))⟩⟩, by rw [hD]; decide⟩
   · have hF : sDoneForever < c.r.state := by
       simp only [sStart, sReadZlibCmf, sReadZlibFlg, sReadBlockHeader, sBlockTypeNoCompression, sRawHeader,
         sRawMemcpy1, sRawMemcpy2, sReadTableSizes, sReadHufflenTableCodeSize, sReadLitlenDistTablesCodeSize,
@@ -937,12 +945,13 @@ theorem step_I (g : Geo e c out) (hI : I c) : StepI e (step e c out) := by
       omega
     have h1 : step e c out = .fin stFailed c out := by unfold step; exact stepAt_failed _ hF e c out
     rw [h1]
-    exact ⟨hI.1, hI.2.1, Or.inr ⟨failed_ne_eoi e, Or.inr (Or.inr hF)⟩⟩
+    exact ⟨⟨hI.1, hI.2.1, Or.inr ⟨failed_ne_eoi e, Or.inr rfl⟩⟩, by intro h; rw [h] at hF; exact absurd hF (by decide)⟩
 
 /-- What a run leaves behind (`RunI`): the buffer is clean; a starved stop leaves fewer than 8 bits or
     a hungry read; every other stop leaves fewer than 8 bits, or a failure state. -/
 def RunI (e : Env) (st : Int) (c' : Ctx) : Prop :=
-  BC c' ∧ Z c' ∧ ((st = e.eoi ∧ (Q c' ∨ Hungry c' ∨ Doomed c')) ∨ (st ≠ e.eoi ∧ (Q c' ∨ Doomed c')))
+  (BC c' ∧ Z c' ∧ ((st = e.eoi ∧ (Q c' ∨ Hungry c')) ∨ (st ≠ e.eoi ∧ (Q c' ∨ st = stFailed)))) ∧
+  c'.r.state ≠ sStart
 
 theorem run_I (e : Env) : ∀ (f : Nat) (c : Ctx) (out : Array UInt8), Geo e c out → I c →
     ∀ st c' out', run e f c out = (st, c', out') → st ≠ stModelError → RunI e st c' := by
@@ -961,7 +970,7 @@ theorem run_I (e : Env) : ∀ (f : Nat) (c : Ctx) (out : Array UInt8), Geo e c o
     cases hst : step e c out with
     | cont c1 o1 =>
       rw [hst] at h hok hsi
-      exact ih c1 o1 hok.geo hsi st c' out' h hne
+      exact ih c1 o1 hok.geo hsi.1 st c' out' h hne
     | fin st1 c1 o1 =>
       rw [hst] at h hsi
       simp only [Prod.mk.injEq] at h
